@@ -33,8 +33,9 @@ type FuncFact struct {
 }
 
 type Facts struct {
-	Consts map[string]string   `json:"consts"`
-	Funcs  map[string]FuncFact `json:"funcs"`
+	Consts map[string]string      `json:"consts"`
+	Funcs  map[string]FuncFact    `json:"funcs"`
+	Shard  map[string][][2]string `json:"shard_steps,omitempty"` // C17, see shard.go
 }
 
 func leanName(s string) string {
@@ -112,6 +113,7 @@ func main() {
 	repo := flag.String("repo", "/repo", "")
 	out := flag.String("out", "", "directory for generated Lean files")
 	factsPath := flag.String("facts", "", "facts.json path")
+	instrShard := flag.String("instr-shard", "", "write the instrumented copy of mux/shard_queue.go here (C17, shard.go)")
 	flag.Parse()
 
 	cfg := &packages.Config{
@@ -193,6 +195,27 @@ func main() {
 			}
 		}
 	}
+	if *out != "" {
+		// C19 access table: union of the non-race and the race build of the packages
+		var rpkgs []*packages.Package
+		for _, p := range pkgs {
+			rp, err := raceVariant(p)
+			if err != nil {
+				fmt.Fprintln(os.Stderr, "race variant of", p.Name, ":", err)
+				os.Exit(2)
+			}
+			if rp != nil {
+				rpkgs = append(rpkgs, rp)
+			}
+		}
+		if err := emitAccess([][]*packages.Package{pkgs, rpkgs}, *out); err != nil {
+			fmt.Fprintln(os.Stderr, err)
+			os.Exit(2)
+		}
+	}
+	shard := analyseShard(pkgs)
+	facts.Shard = shard.Steps
+	defer shard.emit(*out, *instrShard)
 	if *factsPath != "" {
 		j, _ := json.MarshalIndent(facts, "", " ")
 		if err := os.WriteFile(*factsPath, j, 0o644); err != nil {
